@@ -140,13 +140,15 @@ Definition stack_data (gs : list gfile) (order : list nat) (sh : list nat) : arr
     else None).
 
 (** ** dtype of the output (fix 63f686b)
-    [stack_dtype] = numpy result_type of the set of the dtypes of ALL files, [bits_stored = max(BitsStored of every file,
-    default 16)], then the "fslview hack": [if stack_dtype == np.uint16 and bits_stored < 16: np.int16].
+    [stack_dtype] = numpy result_type of the set of the dtypes of ALL files, [bits_stored = max(BitsStored of
+    every file, default 16)], then the "fslview hack": [if stack_dtype == np.uint16 and bits_stored < 16: np.int16].
 
-    The dtype lattice that is modelled: int8, uint8, int16, uint16, int32, float32, float64 with numpy's
-    array-dtype promotion (closed under it; commutative, associative, idempotent - checked exhaustively in
-    ProofsGeomInv - so the iteration order of the Python set does not matter).  Any other dtype name is
-    outside the model ([Err ECrash]). *)
+    The dtype lattice that is modelled: int8, uint8, int16, uint16, int32, float32, float64 (closed under
+    promotion).  numpy's n-ary [result_type] of array dtypes depends only on WHICH dtypes occur (it is not the
+    left fold of the binary promotion, which is not associative once float32 is involved: (int16 v uint16) v
+    float32 = float64 but result_type(int16, uint16, float32) = float32); it is modelled in closed form on the
+    set of dtypes present and compared with numpy on all pairs, triples and a sample of longer tuples by the
+    correspondence (part "lattice").  Any other dtype name is outside the model ([Err ECrash]). *)
 Inductive dt := DInt8 | DUint8 | DInt16 | DUint16 | DInt32 | DFloat32 | DFloat64.
 
 Definition dt_eqb (a b : dt) : bool :=
@@ -171,39 +173,28 @@ Definition all_dt : list dt := [DInt8; DUint8; DInt16; DUint16; DInt32; DFloat32
 
 Definition dt_of_name (s : str) : option dt := find (fun d => str_eqb (dt_name d) s) all_dt.
 
-(** (is float, is signed, bits) *)
-Definition dt_kind (d : dt) : bool * bool * nat :=
-  match d with
-  | DInt8 => (false, true, 8) | DUint8 => (false, false, 8)
-  | DInt16 => (false, true, 16) | DUint16 => (false, false, 16)
-  | DInt32 => (false, true, 32)
-  | DFloat32 => (true, true, 32) | DFloat64 => (true, true, 64)
-  end.
+(** result_type of a set of dtypes given by its seven membership bits:
+    - a float present: float64 if float64 or int32 is present (an int32 does not fit a float32 mantissa),
+      otherwise float32;
+    - integers only, none signed: the widest;
+    - integers only, some signed: the signed type of max(widest signed, twice the widest unsigned) bits. *)
+Definition rt7 (i8 u8 i16 u16 i32 f32 f64 : bool) : dt :=
+  if f32 || f64 then (if f64 || i32 then DFloat64 else DFloat32)
+  else if i8 || i16 || i32 then
+    (if i32 || u16 then DInt32
+     else if i16 || u8 then DInt16
+     else DInt8)
+  else (if u16 then DUint16 else DUint8).
 
-Definition dt_int (signed : bool) (bits : nat) : dt :=
-  if bits <=? 8 then (if signed then DInt8 else DUint8)
-  else if bits <=? 16 then (if signed then DInt16 else DUint16)
-  else DInt32.
-Definition dt_float (bits : nat) : dt := if bits <=? 32 then DFloat32 else DFloat64.
+Definition present (l : list dt) (d : dt) : bool := existsb (dt_eqb d) l.
 
-(** numpy promotion of two array dtypes of the lattice:
-    same kind -> the wider one; unsigned with signed -> a signed type that holds both (twice the unsigned width
-    unless the signed one is already wider); integer with float -> a float whose mantissa holds the integer
-    (<= 16 bits: float32, otherwise float64), at least as wide as the float *)
-Definition promote (a b : dt) : dt :=
-  let '(fa, sa, ba) := dt_kind a in
-  let '(fb, sb, bb) := dt_kind b in
-  match fa, fb with
-  | true, true => dt_float (Nat.max ba bb)
-  | true, false => dt_float (Nat.max ba (if bb <=? 16 then 32 else 64))
-  | false, true => dt_float (Nat.max bb (if ba <=? 16 then 32 else 64))
-  | false, false =>
-      if Bool.eqb sa sb then dt_int sa (Nat.max ba bb)
-      else
-        let ub := if sa then bb else ba in       (* width of the unsigned one *)
-        let ib := if sa then ba else bb in       (* width of the signed one *)
-        dt_int true (if ub <? ib then ib else 2 * ub)
-  end.
+(** numpy result_type of a list of dtypes *)
+Definition result_type (l : list dt) : dt :=
+  rt7 (present l DInt8) (present l DUint8) (present l DInt16) (present l DUint16) (present l DInt32)
+      (present l DFloat32) (present l DFloat64).
+
+(** the binary case: [np.promote_types(a, b)] *)
+Definition promote (a b : dt) : dt := result_type [a; b].
 
 Definition bits_stored_of (g : gfile) : nat := match g_bits_stored g with Some b => b | None => bits_stored_default end.
 
@@ -212,8 +203,8 @@ Definition out_dtype (files : list gfile) : res str :=
   match mapM (fun g => match dt_of_name (g_dtype g) with Some d => Ok d | None => Err ECrash end) files with
   | Err e => Err e
   | Ok [] => Err ECrash                                   (* np.result_type() without arguments: unreachable *)
-  | Ok (d :: ds) =>
-      let j := fold_left promote ds d in
+  | Ok dl =>
+      let j := result_type dl in
       let bits := fold_left Nat.max (map bits_stored_of files) 0 in
       Ok (if str_eqb (dt_name j) uint16_str && (bits <? hack_bits) then int16_str else dt_name j)
   end.
